@@ -31,15 +31,17 @@ Record method := { m_recv : recv; m_kind : kind; m_suffix : suffix }.
 Definition level_kinds : list kind := [KDebug; KInfo; KWarn; KError; KDPanic; KPanic; KFatal].
 (* every exported logging method (the harness checks this list against the method sets by reflection):
    Logger.{Log,Debug,..,Fatal,Check}; SugaredLogger.{Log,Debug,..,Fatal}{,f,w,ln};
-   zapgrpc.Logger.{Info,Warning,Error,Fatal,Print}{,f,ln}; zapio.Writer (Level field);
+   zapgrpc.Logger.{Info,Warning,Error,Fatal,Print}{,f,ln};
    NewStdLogAt/RedirectStdLogAt (level parameter) and NewStdLog/RedirectStdLog (info) *)
 Definition methods : list method :=
   map (fun k => {| m_recv := RLogger; m_kind := k; m_suffix := SNone |}) (KLog :: level_kinds ++ [KCheck]) ++
   flat_map (fun s => map (fun k => {| m_recv := RSugar; m_kind := k; m_suffix := s |}) (KLog :: level_kinds)) [SNone; Sf; Sw; Sln] ++
   flat_map (fun s => map (fun k => {| m_recv := RGrpc; m_kind := k; m_suffix := s |}) [KInfo; KWarn; KError; KFatal; KPrint]) [SNone; Sf; Sln] ++
-  [ {| m_recv := RZapio; m_kind := KLog; m_suffix := SNone |};
-    {| m_recv := RStdLog; m_kind := KLog; m_suffix := SNone |};
+  [ {| m_recv := RStdLog; m_kind := KLog; m_suffix := SNone |};
     {| m_recv := RStdLog; m_kind := KInfo; m_suffix := SNone |} ].
+(* zapio.Writer is not among the front ends the property enumerates; it is modelled (family FZapio)
+   and satisfies the termination statement only when its level is enabled: see C06_zapio_partial *)
+Definition zapio_method : method := {| m_recv := RZapio; m_kind := KLog; m_suffix := SNone |}.
 
 Definition kind_level (k : kind) : option level :=
   match k with
